@@ -259,6 +259,43 @@ class _ApplyLambdas(ast.NodeTransformer):
         return ast.copy_location(_Subst(dict(zip(params, n.args)), {}).visit(copy.deepcopy(lam.body)), n)
 
 
+class _ApplyExprHelpers(ast.NodeTransformer):
+    """a call, anywhere inside an expression, of a helper that is not a unit known to the rules and whose body is one
+    expression (`return E`, or if / return chains = a conditional expression), with plain arguments: E over the arguments"""
+    def __init__(self, exp: "Expander", cls: Optional[str], stack: Tuple[str, ...]):
+        self.exp, self.cls, self.stack = exp, cls, stack
+        self.changed = False
+
+    def visit_FunctionDef(self, n):
+        return n
+
+    visit_AsyncFunctionDef = visit_FunctionDef
+    visit_ClassDef = visit_FunctionDef
+    visit_Lambda = visit_FunctionDef
+
+    def visit_Call(self, n: ast.Call):
+        self.generic_visit(n)
+        r = self.exp._resolve(n, self.cls, False, self.stack)
+        if not r:
+            return n
+        _, h, binding = r
+        if not all(_simple(v) for v in binding.values()) or not isinstance(h, ast.FunctionDef):
+            return n
+        bare = copy.copy(h)
+        bare.decorator_list = []
+        lam = _local_def_as_lambda(bare)
+        if lam is None:
+            return n
+        body = lam[0].value.body
+        if any(isinstance(x, (ast.Lambda, ast.NamedExpr, ast.ListComp, ast.SetComp, ast.DictComp, ast.GeneratorExp, ast.Await, ast.Yield)) for x in ast.walk(body)):
+            return n
+        free = {x.id for x in ast.walk(body) if isinstance(x, ast.Name)} - set(binding)
+        if any(f in getattr(self.exp, "_caller_locals", set()) for f in free):
+            return n        # a global of the helper that the caller shadows with a local
+        self.changed = True
+        return ast.copy_location(_Subst(binding, {}).visit(copy.deepcopy(body)), n)
+
+
 def fuse_comprehension_loops(fn: ast.AST) -> bool:
     """`P = (ELT for .. in .. if ..)` (generator expression or list comprehension bound once to a local that is used nowhere
     else) followed by `for TGT in P: BODY` (no else, no break that leaves it) is the comprehension's own loop nest with
@@ -1305,6 +1342,12 @@ class Expander:
                         changed[0] = True
                         ast.fix_missing_locations(work)
                 work.body = self._block(work.body, cls, names, (qual,), changed)
+                self._caller_locals = _assigned_names(work) | {a.arg for a in ast.walk(work) if isinstance(a, ast.arg)}
+                eh = _ApplyExprHelpers(self, cls, (qual,))
+                work.body = [eh.visit(st) for st in work.body]
+                if eh.changed:
+                    changed[0] = True
+                    ast.fix_missing_locations(work)
                 self._locals = {}
                 if changed[0] and any(isinstance(n_, ast.Name) and n_.id.startswith("_ret__") for n_ in ast.walk(work)):
                     thread_none_tests(work)
